@@ -47,13 +47,10 @@ def run(ctx):
     if ctx.model_ok:
         r = ctx.rng
         # 1. corpus (witnesses of fixed and open findings) first
-        corpus = lc.load_corpus("C13")
-        for fname, group, expect, keys in corpus:
-            st = lc.decide(ctx, exe, "C13c", [group], MODE, known, keys=keys, nontrivial=nontrivial, expect=[expect])
-            dist["corpus"] = dist.get("corpus", 0) + 1
+        dist["corpus"] = lc.run_corpus(ctx, exe, "C13", MODE, known, nontrivial)
         # 2. structured, well-formed histories; a good share without empty values so that the strict
         #    reading is not masked by the listed existence-flag finding
-        n = 260 if ctx.quick else 6000
+        n = 220 if ctx.quick else 6000
         groups = []
         saved = lc.VALS
         for i in range(n):
@@ -61,11 +58,16 @@ def run(ctx):
             groups.append([lc.gen_history(r, r.randrange(1, 7), wild=(i % 11 == 0))])
         lc.VALS = saved
         # 3. unstructured stream (outside the theorem's domain in general) with malformed ops sprinkled in
-        m = 120 if ctx.quick else 3000
+        m = 100 if ctx.quick else 3000
         for i in range(m):
             groups.append([lc.sprinkle_bad_ops(r, lc.gen_soup(r, r.randrange(4, 50)))])
         # 3b. scenario templates (interleavings the random streams reach only rarely)
         groups += [g for g in lc.scenario_groups(r, 5 if ctx.quick else 60) if len(g) == 1]
+        exact_groups = [f(r) for f in lc.EXACT_SCENARIOS for _ in range(6 if ctx.quick else 80)]
+        st = lc.decide(ctx, exe, "C13x", exact_groups, MODE | 16, known, nontrivial=nontrivial)
+        dist["exact_presence"] = st
+        dist["address_ff"] = lc.decide(ctx, exe, "C13f", [lc.scen_address_ff(r) for _ in range(4 if ctx.quick else 40)], MODE, known,
+                                        nontrivial=nontrivial, addrs=lc.ADDRS_FF)
         # 4. exhaustive short sequences (thorough tier)
         if not ctx.quick:
             groups += exhaustive_short(3)
